@@ -87,7 +87,7 @@ func populate(f []*node, ps []*pop, items fix.Items) {
 						panic(err)
 					}
 				default:
-					if err := kv.FromBytes([]byte(ps[i].Val)); err != nil {
+					if err := kv.FromBytes([]byte(wireText(ps[i].Val))); err != nil {
 						panic(err)
 					}
 				}
